@@ -45,7 +45,7 @@ package registry
 //@ func registry.pkgInfoFromPath -> pkg, err
 //@   trusted packages.Load (go list + type checker) is a dependency: A-load; only the shape of the result is assumed
 //@   effect fs-read
-//@   ensures err == nil ==> pkg != nil && pkg.Types != nil
+//@   ensures err == nil ==> pkg != nil && pkg.Types != nil && astOk(pkg.Syntax)
 //@   ensures err != nil ==> pkg == nil
 
 //@ define trimq(s) = uf("strings.Trim", String, s, "\"")
@@ -57,14 +57,14 @@ package registry
 //@   safety C19
 //@   modifies M:string:string#
 //@   requires astOk(syntaxTree) -- go/parser: file and import nodes are never nil, an import spec always has a path (A-load)
-//@   loop 1 invariant files: rangeIndex >= -1 && aliases != nil && fresh(aliases)
+//@   loop 1 invariant files: rangeIndex >= -1 && aliases != nil && fresh(aliases) && otherMapsKept(aliases)
 //@   loop 1 invariant no-dot-or-blank: forall(string(k), dom(aliases, k) ==> aliases[k] != "." && aliases[k] != "_")
 //@   loop 1 invariant harvested: forall(a, b, 0 <= a && a <= rangeIndex && 0 <= b && b < len(syntaxTree[a].Imports) && namedImport(syntaxTree[a].Imports[b]) ==> dom(aliases, trimq(syntaxTree[a].Imports[b].Path.Value)))
-//@   loop 2 invariant files: aliases != nil && fresh(aliases)
+//@   loop 2 invariant files: aliases != nil && fresh(aliases) && otherMapsKept(aliases)
 //@   loop 2 invariant no-dot-or-blank: forall(string(k), dom(aliases, k) ==> aliases[k] != "." && aliases[k] != "_")
 //@   loop 2 invariant harvested-earlier-files: forall(a, b, 0 <= a && a <= rangeIndex1 && 0 <= b && b < len(syntaxTree[a].Imports) && namedImport(syntaxTree[a].Imports[b]) ==> dom(aliases, trimq(syntaxTree[a].Imports[b].Path.Value)))
 //@   loop 2 invariant harvested-this-file: rangeIndex >= -1 && forall(b, 0 <= b && b <= rangeIndex && namedImport(syntax.Imports[b]) ==> dom(aliases, trimq(syntax.Imports[b].Path.Value)))
-//@   ensures result: aliases != nil && fresh(aliases)
+//@   ensures result: aliases != nil && fresh(aliases) && otherMapsKept(aliases)
 //@   ensures{C11} never-dot-or-blank: forall(string(k), dom(aliases, k) ==> aliases[k] != "." && aliases[k] != "_")
 //@   ensures{C11,C15} every-named-import-of-every-file-harvested: forall(a, b, 0 <= a && a < len(syntaxTree) && 0 <= b && b < len(syntaxTree[a].Imports) && namedImport(syntaxTree[a].Imports[b]) ==> dom(aliases, trimq(syntaxTree[a].Imports[b].Path.Value)))
 
